@@ -153,6 +153,7 @@ type Exec struct {
 	pooled        map[*Value]bool
 	pureDepth     int
 	pureFork      int
+	onceDone      map[*Value]bool
 	ipdomCache    map[*ssa.Function]map[*ssa.BasicBlock]*ssa.BasicBlock
 }
 
@@ -513,6 +514,7 @@ func (e *Exec) runPath(fn *ssa.Function, prefix []int64) (res *PathResult) {
 	e.entry = fn
 	e.pooled = nil
 	e.pureDepth, e.pureFork = 0, 0
+	e.onceDone = nil
 	res = e.cur
 	e.sol.Push()
 	defer func() {
